@@ -159,7 +159,7 @@ def detect(ids, props):
     props = props or claimed
     results_path = os.path.join(SEEDED, "RESULTS.json")
     results = json.load(open(results_path)) if os.path.exists(results_path) else {}
-    with ThreadPoolExecutor(max_workers=6) as ex:
+    with ThreadPoolExecutor(max_workers=13) as ex:
         for sid, res in ex.map(lambda s: detect_one(s, props), all_ids):
             meta = json.load(open(os.path.join(SEEDED, sid, "meta.json"), encoding="utf-8"))
             own = meta.get("property")
@@ -243,7 +243,7 @@ def neg_detect(ids):
             shutil.rmtree(d, ignore_errors=True)
         return rid, res
     n_alarm = 0
-    with ThreadPoolExecutor(max_workers=6) as ex:
+    with ThreadPoolExecutor(max_workers=13) as ex:
         for rid, res in ex.map(one, all_ids):
             results[rid] = res
             if res:
